@@ -38,9 +38,9 @@ K5_TEXT = ("Distributed Shampoo frequent_directions through the public optimizer
            "stored sketch eigenvalues between updates (cut p[:dim, :rank+2]), so sketch + tail*I >= C fails")
 
 TOL64 = 1e-9          # oracle tolerance relative to tr(C), float64 paths
-TOL32 = 2e-4          # float32 paths (measured worst ~1e-6..1e-5)
+TOL32 = 5e-5          # float32 paths (measured worst ~1e-6)
 KTOL64 = 1e-9         # correspondence tolerance relative to max|B B'|, float64 paths
-KTOL32 = 2e-4
+KTOL32 = 1e-4
 ALGOS = ["RFD_SON", "FD_SON", "ADA_FD", "S_ADA"]
 
 
@@ -675,9 +675,10 @@ def compare_step(ctx, tr, i, rep, scale):
                 ctx.disagree(kind + "_step.inv_tail", case, post["inv_tail"], float(it_m), "inverse root of the escaped mass")
                 ok = False
     if kind == "ds" and not tr.extra["public"]:
-        # has_zeros flag (exact) when no eigenvalue is near the mask threshold
-        if min([abs(x) for x in l_m] + [1.0]) > 1e-6 * sc or all(x == 0.0 for x in l_m):
-            if bool(rep["has_zeros"]) != bool(post["has_zeros"]) and min(abs(x) for x in post["l"]) > 1e-6 * sc:
+        # has_zeros flag (exact) when neither an eigenvalue nor the escaped mass is near the thresholds `<= 0`
+        clear = lambda ls, tt: all(abs(x) > 1e-6 * sc for x in ls) and tt > 1e-6 * sc
+        if clear(l_m, t_m) and clear(post["l"], post["t"]):
+            if bool(rep["has_zeros"]) != bool(post["has_zeros"]):
                 ctx.disagree("ds_step.has_zeros", case, post["has_zeros"], rep["has_zeros"], "has_zeros flag")
                 ok = False
     ctx.corr(kind + "_step", ok)
